@@ -41,6 +41,12 @@ func genField(rng *rand.Rand, allowSpace bool) string {
 	if s[0] == '#' {
 		s = "x" + s[1:]
 	}
+	if rng.Intn(20) == 0 { // words a format gives a meaning to elsewhere: here they are just text
+		kw := []string{"track", "track_12", "tracking scaffold 3", "browser", "browserX", "gff-version", "sequence-region", "DNA", "end-DNA", "Type", "date", ".", "+", "-", "0", "1", "-1", "NaN", "Inf", "nil", "null", "true", "chr1", "e", "x"}[rng.Intn(25)]
+		if allowSpace || !strings.Contains(kw, " ") {
+			s = kw
+		}
+	}
 	if rng.Intn(10) == 0 { // text beyond ASCII, in particular runes whose last UTF-8 byte is 0x85 or 0xA0 (white space if read alone)
 		u := []string{"à", "Å", "é", "Р", "日", "Š", "ł", "…", "𝄞", "ā"}[rng.Intn(10)]
 		switch rng.Intn(3) {
@@ -217,7 +223,13 @@ func genScore(rng *rand.Rand) *float64 {
 
 func genGFF(rng *rand.Rand) *gff.Feature {
 	var s, e int
-	switch rng.Intn(8) {
+	switch rng.Intn(9) {
+	case 8: // a span wider than the largest int: End - Start does not fit, Start < End still holds
+		s = math.MinInt64 + rng.Intn(1000)
+		e = math.MaxInt64 - rng.Intn(1000)
+		if rng.Intn(2) == 0 {
+			s, e = math.MinInt64/2-rng.Intn(1000), math.MaxInt64/2+2+rng.Intn(1000)
+		}
 	case 0:
 		s = math.MaxInt64 - 1 - rng.Intn(3)
 		e = s + 1 + rng.Intn(math.MaxInt64-s)
